@@ -365,8 +365,28 @@ func cmdCheck(args []string) int {
 					path := filepath.Join(replayDir, fmt.Sprintf("%s-%d.json", id, nrep))
 					b, _ := os.ReadFile(o.File)
 					os.WriteFile(path, b, 0644)
-					key := "native-sample|" + o.Outcome
-					if _, ok := knownKeys[key]; ok {
+					// the native run may take another goroutine schedule than the engine's path: a failure that is a
+					// listed known finding (same harness / label / tags, or a "native-sample|harness|label|tag" entry) is reported as such
+					var rf replayFile
+					json.Unmarshal(b, &rf)
+					nlabel, ntags := parseNativeOutcome(o.Outcome)
+					sort.Strings(ntags)
+					tryKeys := []string{"native-sample|" + o.Outcome, rf.Harness + "|" + nlabel + "|" + strings.Join(ntags, ",")}
+					for _, tg := range ntags {
+						tryKeys = append(tryKeys, "native-sample|"+rf.Harness+"|"+nlabel+"|"+tg)
+					}
+					isKnown := false
+					for _, key := range tryKeys {
+						if kf, ok := knownKeys[key]; ok {
+							fmt.Printf("KNOWN-FINDING: property=%s %s (native run of a sampled path; key %s)\n", id, kf.What, key)
+							knownHit = append(knownHit, key+" (native run of a sampled path)")
+							isKnown = true
+							break
+						}
+					}
+					if isKnown {
+						os.Remove(path)
+						nrep--
 						continue
 					}
 					fmt.Printf("VIOLATION property=%s replay=%s\n", id, path)
@@ -453,6 +473,24 @@ func cmdCheck(args []string) int {
 	}
 	fmt.Printf("PASS property=%s\n", id)
 	return 0
+}
+
+// parseNativeOutcome splits "ASSERT-FAIL <label> tags=a,b" (tags optional).
+func parseNativeOutcome(oc string) (label string, tags []string) {
+	f := strings.Fields(oc)
+	if len(f) >= 2 {
+		label = f[1]
+	}
+	for _, x := range f[2:] {
+		if strings.HasPrefix(x, "tags=") {
+			for _, t := range strings.Split(strings.TrimPrefix(x, "tags="), ",") {
+				if t != "" && !strings.HasPrefix(t, "where=") {
+					tags = append(tags, t)
+				}
+			}
+		}
+	}
+	return
 }
 
 // sourceHash hashes the non-test Go sources of the repo working tree: the
